@@ -102,6 +102,12 @@ fn exec_caught<S: SubCheck>(s: &S, case: &S::Case) -> Outcome {
     match catch(|| s.exec(case)) {
         Ok(o) => o,
         Err(p) => {
+            if p.contains("harness:") {
+                // the harness itself could not do its job (no port, no socket, ...): inconclusive, never a violation
+                eprintln!("INCONCLUSIVE: {} could not run a case: {}", s.name(), p);
+                crate::sys::cluster::kill_all();
+                std::process::exit(2);
+            }
             let mut o = Outcome::new();
             o.fail(format!("{}/harness-or-uncaught-panic", s.name()), format!("uncaught panic in exec: {}", p));
             o
